@@ -39,7 +39,9 @@ CLAIMS = {
             "(accounting, one result per container, success iff all completed, failure shape, unknown pool rejected) on every implementation trace.",
             "Props/C09.lean"),
     "C10": ("Lean theorems on the container/pool model (boundary flag, duration max(1, ram/g), work returned intact); tie: suspension requested at "
-            "every moment of container lives incl. write-outs of 1, 2, many ticks run to their end; `check_C10` on every implementation trace.",
+            "every moment of container lives incl. write-outs of 1, 2, many ticks run to their end; `check_C10` on every implementation trace (incl. the pool balance where write-outs end); "
+            "the duration clause is also measured on the real executor on decimal tick rates against exact arithmetic: the unchanged code is one tick short when ram/20*tps is an exact "
+            "integer and the float quotient falls below it (open known finding D13; the exact computation changes tests/regression).",
             "Props/C10.lean"),
     "C11": ("Lean theorems: stable descending sort by usage^2/allocation, victims are a prefix, kills happen only while usage exceeds capacity; tie: "
             "overcommitted pools with several growing containers; `check_C11` evaluated on the killer's own snapshot of every implementation tick.",
